@@ -344,6 +344,42 @@ fn run_system(sys: &Sys, lsq: bool, heavy: bool, case: &Case, keyp: &str, idx: u
                     }
                 }
             }
+            // entries with CURVATURE: every entry also carries a second-order part with respect to its variable, and a
+            // structurally zero entry is a stationary zero (value 0, gradient 0, second-order part non-zero, as
+            // (t - t0)^2 is at t0) - it still moves the second derivatives of the solution
+            if mode == 0 && !lsq {
+                acc.eval();
+                let curv = |i: usize, j: usize| 0.375 + 0.125 * ((i + 2 * j) % 3) as f64;
+                let a2 = Array2::from_shape_fn((m, n), |(i, j)| {
+                    let k = avar(i, j).unwrap();
+                    if sys.a[i][j] == 0.0 {
+                        Dual2::try_new(0.0, vec![names[k].clone()], vec![0.0], vec![0.5 * curv(i, j)]).unwrap()
+                    } else {
+                        Dual2::try_new(sys.a[i][j], vec![names[k].clone()], vec![gcoef(i, j)], vec![0.5 * curv(i, j)]).unwrap()
+                    }
+                });
+                let a2_ref: Vec<Vec<DR>> = (0..m)
+                    .map(|i| {
+                        (0..n)
+                            .map(|j| {
+                                let k = avar(i, j).unwrap();
+                                let mut d = if sys.a[i][j] == 0.0 { DR::leaf(nv, 0.0, None) } else { DR::leaf(nv, sys.a[i][j], Some((k, gcoef(i, j)))) };
+                                d.h[k * nv + k] = curv(i, j);
+                                d
+                            })
+                            .collect()
+                    })
+                    .collect();
+                match guarded(|| dsolve(&a2.view(), &b.view(), lsq)) {
+                    Err(msg) => acc.violate(&format!("{}/Dual2/curved-entries/panic", keyp), idx, cj(), json!("a solution"), json!(msg)),
+                    Ok(x) => {
+                        let xr: Vec<DR> = x.iter().map(|d| dr_of_number(&Number::Dual2(d.clone()), &names)).collect();
+                        if let Err(e) = residual_ok(&a2_ref, &xr, &b_ref, lsq, true) {
+                            acc.violate(&format!("{}/Dual2/curved-entries", keyp), idx, cj(), json!("A x = b in value, every first and every second derivative, with curvature on the entries of A"), json!(e));
+                        }
+                    }
+                }
+            }
             if mode == 2 {
                 acc.eval();
                 let af = Array2::from_shape_fn((m, n), |(i, j)| sys.a[i][j]);
@@ -652,7 +688,7 @@ pub fn run(ctx: &Ctx, replay_file: Option<String>) -> ! {
          under a generator set of permutations, and of size 9, 10, 12, 16, 17, 24, 33 under four permutations; tall m x n systems for all n <= 6 < m <= 12 with least squares. Each \
          system is solved with dsolve on f64, Dual, Dual2 and Number (float and dual entries mixed) and with fdsolve \
          (float matrix) for right-hand sides of each type, under four taggings (every entry its own variable incl. \
-         structurally zero entries, one shared variable, one variable per row, no variables on A); the float and \
+         structurally zero entries, one shared variable, one variable per row, no variables on A; under the first also with a second-order part on every entry and structurally zero entries turned into stationary zeros); the float and \
          row-tagged Dual systems are also handed over in column-major memory order (transposed view, Fortran-order \
          array); 2x2 / 3x3 patterns are repeated with one non-zero entry scaled to 1e-11 (tiny pivots), and again with that entry scaled by 1e-7 / 1e-15 / 1e-4 / 1 and the whole system (right-hand side included) by 1 / 1e9 / 1e-9 / 1e-9 / 1e9. The same float systems scaled as a whole by 1e-300, 1e-200, 1e150, 1e300 must give the unscaled solution. Oracle: the residual \
          A x - b (A^T A x - A^T b for least squares) recomputed in a dense reference arithmetic vanishes in value, every \
